@@ -136,6 +136,10 @@ package fsm
 //@       s.Transitions[old(len(s.Transitions))].Matcher == matcher && s.Transitions[old(len(s.Transitions))].Next == next
 //@   ensures frame: frame(s.Transitions) && s.Terminal == old(s.Terminal)
 
+//@ func (StateTransitions).Less
+//@   requires in-range: 0 <= i && i < len(t) && 0 <= j && j < len(t) && t[i] != nil && t[j] != nil && t[i].Matcher != nil && t[j].Matcher != nil
+//@   ensures by-priority-only: result == (prio(t[i].Matcher) < prio(t[j].Matcher))
+
 // Prepare (shortcut elimination + priority sort) is not verified: its effect on the graph's language is covered by the
 // bounded stand-in O4 (DESIGN.md); here it is only assumed to return.
 //@ func (*State).Prepare
